@@ -1,5 +1,6 @@
 """C08 — event verification accepts exactly correctly hashed and signed events."""
 import hashlib
+from .. import sweeps
 from ..common import Check, hx, tags_tok
 from .. import jsongen, gen
 
@@ -95,4 +96,5 @@ def run():
         c.count('mutant:' + a.split(' ')[0])
         if a != 'err':
             c.violation('oracle', 'a single-field mutation of a verifying event was not rejected: %s' % a[:40], ['# original: ' + o[:1500], ml[:1500]])
+    sweeps.cpt_sweep(c)
     c.finish()
